@@ -19,5 +19,8 @@ PROPS = {
     "C04": {"level": "model_checking", "bounds_text": BT, "G": G(["rt"], "^Harness_RT_", "^C04")},
     "C19": {"level": "model_checking", "bounds_text": BT, "G": G(["rt"], "^Harness_RT_", "C19/")},
     "C20": {"level": "model_checking", "bounds_text": BT, "G": G(["rt"], "^Harness_RT_", "^C20/")},
-    "C07": {"level": "model_checking", "bounds_text": BT, "G": G(["rt"], "^Harness_RT_", "^C07/", programs="oneof|empty|mini")},
+    "C07": {"level": "model_checking", "bounds_text": BT, "G": G(["rt", "from"], "^Harness_(RT|From)_", "^C07/", programs="oneof|empty|mini")},
+    "C05": {"level": "model_checking", "bounds_text": BT, "G": G(["from"], "^Harness_From_", "^C05/")},
+    "C08": {"level": "model_checking", "bounds_text": BT, "G": G(["echo"], "^Harness_Echo_", "^C08/")},
+    "C09": {"level": "model_checking", "bounds_text": BT, "G": G(["refresh"], "^Harness_Refresh_", "^C09/")},
 }
